@@ -53,6 +53,13 @@ pub fn termination(rng: &mut Rng) -> Case {
     }
     cfg.steps = rng.urange(0, 45);
     let variant = rng.below(20);
+    // one run in ten: the server limits the packet size and the user's first disconnect() is
+    // too large for it - refused, hence no reason for run() to end
+    let refused_disconnect = variant >= 4 && rng.chance(1, 10);
+    if refused_disconnect {
+        cfg.max_packet = Some(rng.range(14, 30) as u32);
+        cfg.big_payloads = false;
+    }
     let mut g = Gen::new(cfg, rng);
     if variant < 4 {
         connect_variants(&mut g);
@@ -61,6 +68,12 @@ pub fn termination(rng: &mut Rng) -> Case {
     g.preamble();
     for _ in 0..g.cfg.steps {
         g.action();
+    }
+    if refused_disconnect {
+        let id = g.next_op_id();
+        let spec = DisconnectSpec { reason: Some(0x04), session_expiry: None, reason_string: Some("a reason string that does not fit into thirty bytes".into()), user: vec![] };
+        g.push(Step::Op { id, handle: 0, spec: OpSpec::Disconnect(spec) });
+        g.settle();
     }
     let cause = if variant == 4 { 99 } else { g.rng.below(9) };
     let profile = match cause {
@@ -108,7 +121,15 @@ pub fn termination(rng: &mut Rng) -> Case {
             "termination/server-disconnect"
         }
         5 => {
-            let k = if g.rng.coin() { FaultKind::ReadEof } else { FaultKind::ReadErr };
+            let k = match g.rng.below(3) {
+                0 => FaultKind::ReadEof,
+                1 => FaultKind::ReadErr,
+                // a transient error kind, with bytes possibly already readable behind it
+                _ => FaultKind::ReadGlitch { kind: g.rng.below(4) as u8 },
+            };
+            if matches!(k, FaultKind::ReadGlitch { .. }) && g.rng.coin() {
+                g.push(Step::Broker { pkt: BrokerPkt::Pingresp, chunks: Chunks::Whole, hold: false });
+            }
             if g.rng.coin() {
                 // cut inside a packet
                 let n = g.rng.urange(1, 3);
@@ -230,7 +251,10 @@ pub fn teardown(rng: &mut Rng) -> Case {
         let subs = g.unopened_subs();
         if !subs.is_empty() {
             let sub = *g.rng.pick(&subs);
-            let n = *g.rng.pick(&[15usize, 16, 17, 31, 32, 33, 63, 64, 65, 100, 130]);
+            let mut n = *g.rng.pick(&[15usize, 16, 17, 31, 32, 33, 63, 64, 65, 100, 130]);
+            if g.rng.chance(1, 30) {
+                n = *g.rng.pick(&[255usize, 256, 257, 1023, 1024, 1025, 1026, 1100]);
+            }
             for _ in 0..n {
                 g.inbound_publish_to(sub);
             }
@@ -374,9 +398,16 @@ pub fn wake_base(rng: &mut Rng) -> Case {
     let mut g = Gen::new(cfg, rng);
     g.preamble();
     let burst_at = if g.rng.chance(1, 12) { Some(g.rng.usize_below(g.cfg.steps.max(1))) } else { None };
+    // one run in twelve: a transient read error somewhere (whatever the library makes of it,
+    // it must not be left pending without a wake-up while input is readable)
+    let glitch_at = if g.rng.chance(1, 12) { Some(g.rng.usize_below(g.cfg.steps.max(1))) } else { None };
     for k in 0..g.cfg.steps {
         if burst_at == Some(k) {
             g.burst();
+        }
+        if glitch_at == Some(k) {
+            let kind = g.rng.below(4) as u8;
+            g.push(Step::Fault(FaultKind::ReadGlitch { kind }));
         }
         g.action();
     }
